@@ -20,17 +20,43 @@ Assumed, not modelled: atomicity of single set/dict/list operations under the GI
 namespace NQ.Hub
 
 abbrev Key := Nat × Nat × Nat
-abbrev Msg := Nat
+/-- What travels through a channel: a Python string.  Strings are partitioned into those that `json.loads` to a
+`{"header": h, "payload": p}` object (`json h p`, what `send_structured` produces) and all the others (`text s`;
+`text 0` stands for the empty string).  Numerals denote `text` strings. -/
+inductive Wire
+  | text (s : Nat)
+  | json (h p : Nat)
+  deriving DecidableEq, Repr
+
+instance (n : Nat) : OfNat Wire n := ⟨.text n⟩
+
+abbrev Msg := Wire
 
 /-- `ThreadSocket.remote_key` -/
 def rkey (k : Key) : Key := (k.2.1, k.1, k.2.2)
 
+/-- how a `recv` behaves on an empty queue -/
+inductive RMode
+  | nb                                   -- block=False: raise RuntimeError
+  | blk                                  -- block=True (timeout=None): poll this key again
+  | poll (all rem : List Nat)            -- BroadcastChannelBySockets.recv(block=True): go on with the next remote
+                                         -- of `rem`, after the last one start again with the first of `all`
+  | pollOnce (rem : List Nat)            -- BroadcastChannelBySockets.recv(block=False): ONE round over the remotes,
+                                         -- RuntimeError("No message broadcasted") when none had a message
+  deriving DecidableEq, Repr
+
 /-- operations of an endpoint; the key is `(tid, rn, id)` -/
 inductive Op
   | connect (rn id : Nat) (cb : Bool)     -- ThreadSocket(...): `_SocketHub.connect`
-  | send (rn id : Nat) (m : Msg)          -- socket.send / send_structured: connected check + `_SocketHub.send`
-  | recv (rn id : Nat) (block : Bool)     -- `_SocketHub.recv(block=…, timeout=None)`
+  /-- socket.send / send_silent / send_structured (connected check + `_SocketHub.send`) to `rn`, and then — as
+  `BroadcastChannelBySockets.send` does — the same message to every remote of `more`, stopping at the first
+  ConnectionError -/
+  | send (rn id : Nat) (m : Msg) (more : List Nat)
+  /-- `_SocketHub.recv(timeout=None)`; `tag` is an annotation of the calling socket-level method (0 = recv /
+  recv_silent, 1 = recv_structured) that the hub ignores and copies into the result -/
+  | recv (rn id : Nat) (mode : RMode) (tag : Nat)
   | disconnect (rn id : Nat)              -- `_SocketHub.disconnect`
+  | wait (rn id : Nat)                    -- ThreadSocket.wait(): spin on `connected` until it is False
   deriving DecidableEq, Repr
 
 /-- outcome of a completed operation -/
@@ -38,10 +64,11 @@ inductive Res
   | connected (k : Key)
   | sent (k : Key) (m : Msg)
   | connErr (k : Key) (m : Msg)           -- ConnectionError("Socket is not connected so cannot send")
-  | got (k : Key) (m : Msg)
+  | got (k : Key) (m : Msg) (tag : Nat)
   | empty (k : Key)                       -- RuntimeError("No message to receive …")
   | crash (k : Key)                       -- IndexError from pop(0) on an empty list (proved unreachable)
   | disconnected (k : Key)
+  | waited (k : Key)
   deriving DecidableEq, Repr
 
 /-- the shared-state access the thread is about to execute -/
@@ -55,17 +82,17 @@ inductive Pc
   | cWaitOpen (k : Key)      -- if remote_key in self._open_sockets: return
   | cWaitRemote (k : Key)    -- if remote_key in self._remote_sockets: return
   -- send
-  | sCheck (k : Key) (m : Msg)   -- is_connected: key and remote_key in _open_sockets
-  | sCb (k : Key) (m : Msg)      -- recv_callback = self._recv_callbacks.get(remote_key)
-  | sCall (k : Key) (m : Msg)    -- method(msg)
-  | sLock (k : Key) (m : Msg)    -- with self._lock:
-  | sAppend (k : Key) (m : Msg)  -- self._messages[remote_key].append(msg)   (+ release)
+  | sCheck (k : Key) (m : Msg) (more : List Nat)   -- is_connected: key and remote_key in _open_sockets
+  | sCb (k : Key) (m : Msg) (more : List Nat)      -- recv_callback = self._recv_callbacks.get(remote_key)
+  | sCall (k : Key) (m : Msg) (more : List Nat)    -- method(msg)
+  | sLock (k : Key) (m : Msg) (more : List Nat)    -- with self._lock:
+  | sAppend (k : Key) (m : Msg) (more : List Nat)  -- self._messages[remote_key].append(msg)   (+ release)
   -- recv
-  | rLock (k : Key) (b : Bool)   -- with self._lock:
-  | rRead (k : Key) (b : Bool)   -- messages = self._messages[key]            (+ release)
-  | rLen (k : Key) (b : Bool)    -- if len(messages) == 0
-  | rLock2 (k : Key)             -- with self._lock:
-  | rPop (k : Key)               -- msg = messages.pop(0)                     (+ release)
+  | rLock (k : Key) (b : RMode) (tag : Nat)   -- with self._lock:
+  | rRead (k : Key) (b : RMode) (tag : Nat)   -- messages = self._messages[key]            (+ release)
+  | rLen (k : Key) (b : RMode) (tag : Nat)    -- if len(messages) == 0
+  | rLock2 (k : Key) (tag : Nat)             -- with self._lock:
+  | rPop (k : Key) (tag : Nat)               -- msg = messages.pop(0)                     (+ release)
   -- disconnect (everything under the lock)
   | dLock (k : Key)
   | dLostGet (k : Key)       -- self._conn_lost_callbacks.get(remote_key)
@@ -76,6 +103,8 @@ inductive Pc
   | dRemRm (k : Key)         -- self._remote_sockets.remove(remote_key)
   | dPopRecv (k : Key)       -- self._recv_callbacks.pop(key, None)
   | dPopLost (k : Key)       -- self._conn_lost_callbacks.pop(key, None)      (+ release)
+  -- ThreadSocket.wait
+  | wCheck (k : Key)         -- if not self.connected: return
   deriving DecidableEq, Repr
 
 structure Thread where
@@ -107,9 +136,10 @@ def upd {α : Type} (f : Key → α) (k : Key) (v : α) : Key → α := fun x =>
 /-- first shared access of an operation of thread `tid` -/
 def entry (tid : Nat) : Op → Pc
   | .connect rn id cb => if cb then .cCbRecv (tid, rn, id) else .cOpen (tid, rn, id) false
-  | .send rn id m => .sCheck (tid, rn, id) m
-  | .recv rn id b => .rLock (tid, rn, id) b
+  | .send rn id m more => .sCheck (tid, rn, id) m more
+  | .recv rn id b tag => .rLock (tid, rn, id) b tag
   | .disconnect rn id => .dLock (tid, rn, id)
+  | .wait rn id => .wCheck (tid, rn, id)
 
 /-- the current operation completes with outcome `r`; park in front of the next operation -/
 def advance (tid : Nat) (th : Thread) (r : Res) : Thread :=
@@ -121,6 +151,9 @@ def setThread (s : State) (tid : Nat) (th : Thread) : State :=
   { s with threads := fun t => if t = tid then th else s.threads t }
 
 def goto (th : Thread) (pc : Pc) : Thread := { th with pc := pc }
+
+/-- stay in the operation: next program counter, one more result -/
+def gotoR (th : Thread) (pc : Pc) (r : Res) : Thread := { th with pc := pc, res := th.res ++ [r] }
 
 /-- One atomic step of thread `tid`; `none` = not enabled (finished, or blocked on the lock). -/
 def step (s : State) (tid : Nat) : Option State :=
@@ -140,39 +173,50 @@ def step (s : State) (tid : Nat) : Option State :=
   | .cWaitRemote k =>
       if s.remote (rkey k) then some (setThread s tid (advance tid th (.connected k)))
       else some (setThread s tid (goto th (.cWaitOpen k)))
-  | .sCheck k m =>
-      if s.open_ k && s.open_ (rkey k) then some (setThread s tid (goto th (.sCb k m)))
+  | .sCheck k m more =>
+      if s.open_ k && s.open_ (rkey k) then some (setThread s tid (goto th (.sCb k m more)))
       else some (setThread s tid (advance tid th (.connErr k m)))
-  | .sCb k m =>
-      if s.recvCbs (rkey k) then some (setThread s tid (goto th (.sCall k m)))
-      else some (setThread s tid (goto th (.sLock k m)))
-  | .sCall k m =>
+  | .sCb k m more =>
+      if s.recvCbs (rkey k) then some (setThread s tid (goto th (.sCall k m more)))
+      else some (setThread s tid (goto th (.sLock k m more)))
+  | .sCall k m more =>
       some (setThread { s with cbStore := upd s.cbStore (rkey k) (s.cbStore (rkey k) ++ [m]),
                                sent := upd s.sent (rkey k) (s.sent (rkey k) ++ [m]),
                                delivered := upd s.delivered (rkey k) (s.delivered (rkey k) ++ [m]) }
-        tid (advance tid th (.sent k m)))
-  | .sLock k m =>
+        tid (match more with
+             | [] => advance tid th (.sent k m)                                   -- last remote: operation done
+             | r :: rs => gotoR th (.sCheck (k.1, r, k.2.2) m rs) (.sent k m)))   -- broadcast: next remote
+  | .sLock k m more =>
       if s.lock.isSome then none
-      else some (setThread { s with lock := some tid } tid (goto th (.sAppend k m)))
-  | .sAppend k m =>
+      else some (setThread { s with lock := some tid } tid (goto th (.sAppend k m more)))
+  | .sAppend k m more =>
       some (setThread { s with msgs := upd s.msgs (rkey k) (s.msgs (rkey k) ++ [m]),
                                sent := upd s.sent (rkey k) (s.sent (rkey k) ++ [m]),
                                queued := upd s.queued (rkey k) (s.queued (rkey k) ++ [m]),
                                lock := none }
-        tid (advance tid th (.sent k m)))
-  | .rLock k b =>
+        tid (match more with
+             | [] => advance tid th (.sent k m)
+             | r :: rs => gotoR th (.sCheck (k.1, r, k.2.2) m rs) (.sent k m)))
+  | .rLock k b tag =>
       if s.lock.isSome then none
-      else some (setThread { s with lock := some tid } tid (goto th (.rRead k b)))
-  | .rRead k b => some (setThread { s with lock := none } tid (goto th (.rLen k b)))
-  | .rLen k b =>
+      else some (setThread { s with lock := some tid } tid (goto th (.rRead k b tag)))
+  | .rRead k b tag => some (setThread { s with lock := none } tid (goto th (.rLen k b tag)))
+  | .rLen k b tag =>
       match s.msgs k with
-      | [] => if b then some (setThread s tid (goto th (.rLock k b)))
-              else some (setThread s tid (advance tid th (.empty k)))
-      | _ :: _ => some (setThread s tid (goto th (.rLock2 k)))
-  | .rLock2 k =>
+      | [] =>
+        match b with
+        | .nb => some (setThread s tid (advance tid th (.empty k)))
+        | .blk => some (setThread s tid (goto th (.rLock k .blk tag)))
+        | .poll all (r :: rs) => some (setThread s tid (goto th (.rLock (k.1, r, k.2.2) (.poll all rs) tag)))
+        | .poll [] [] => some (setThread s tid (goto th (.rLock k (.poll [] []) tag)))
+        | .poll (a :: as) [] => some (setThread s tid (goto th (.rLock (k.1, a, k.2.2) (.poll (a :: as) as) tag)))
+        | .pollOnce (r :: rs) => some (setThread s tid (goto th (.rLock (k.1, r, k.2.2) (.pollOnce rs) tag)))
+        | .pollOnce [] => some (setThread s tid (advance tid th (.empty k)))
+      | _ :: _ => some (setThread s tid (goto th (.rLock2 k tag)))
+  | .rLock2 k tag =>
       if s.lock.isSome then none
-      else some (setThread { s with lock := some tid } tid (goto th (.rPop k)))
-  | .rPop k =>
+      else some (setThread { s with lock := some tid } tid (goto th (.rPop k tag)))
+  | .rPop k tag =>
       match s.msgs k with
       | [] => some (setThread { s with lock := none } tid (advance tid th (.crash k)))
       | m :: q =>
@@ -180,7 +224,10 @@ def step (s : State) (tid : Nat) : Option State :=
                                  delivered := upd s.delivered k (s.delivered k ++ [m]),
                                  popped := upd s.popped k (s.popped k ++ [m]),
                                  lock := none }
-          tid (advance tid th (.got k m)))
+          tid (advance tid th (.got k m tag)))
+  | .wCheck k =>
+      if s.open_ k && s.open_ (rkey k) then some (setThread s tid th)
+      else some (setThread s tid (advance tid th (.waited k)))
   | .dLock k =>
       if s.lock.isSome then none
       else some (setThread { s with lock := some tid } tid (goto th (.dLostGet k)))
